@@ -39,3 +39,34 @@ Definition wf_spec (p : program) (t : symtab) (m : macrotab) : Prop :=
 (* the element's commands are in strictly increasing priority order *)
 Definition rank_lt (a b : cmd) : Prop :=
   match head_rank a, head_rank b with Some x, Some y => x < y | _, _ => False end.
+
+(* ---- the same statement with the element spans made explicit (one inductive, elements inlined):
+        wfitemsS t o l spans — as wfitems t o l, and spans lists the (start, end) index pairs of the
+        elements of l in the order in which the recursive-descent check meets them ---- *)
+Inductive wfitemsS (t : symtab) : nat -> list cmd -> list (nat * nat) -> Prop :=
+| wsi_nil : forall o, wfitemsS t o [] []
+| wsi_out : forall o c rest sp, is_out c = true -> wfitemsS t (S o) rest sp -> wfitemsS t o (c :: rest) sp
+| wsi_elem : forall o sc head st body en rest spb spr,
+    is_scope sc = true -> head_sorted 0 head = true -> is_stag st = true -> is_etag en = true ->
+    syms_ok t (o + 2 + length head + length body) head = true ->
+    wfitemsS t (o + 2 + length head) body spb ->
+    wfitemsS t (o + 3 + length head + length body) rest spr ->
+    wfitemsS t o (sc :: head ++ st :: body ++ en :: rest) ((o, o + 2 + length head + length body) :: spb ++ spr).
+
+(* the shape of a command: everything the structural check looks at (kind and symbol), no data *)
+Definition shape (c : cmd) : cmd :=
+  match c with
+  | CDefine _ => CDefine []
+  | CCondition _ s => CCondition [] s
+  | CRepeat _ _ s => CRepeat [] [] s
+  | CContent _ _ _ s => CContent false false [] s
+  | CAttributes _ => CAttributes []
+  | COmitTag _ => COmitTag []
+  | CStartScope _ _ => CStartScope [] []
+  | COutput _ => COutput []
+  | CStartTag _ _ => CStartTag [] false
+  | CEndTagEndScope _ _ _ => CEndTagEndScope [] false false
+  | CNoOp => CNoOp
+  | CUseMacro _ _ s => CUseMacro [] [] s
+  | CDefineSlot _ s => CDefineSlot [] s
+  end.
